@@ -223,16 +223,25 @@ def oracle(cap, ops, second_pass=True):
 
 
 def shrink(cap, ops, clause):
+    """Delta-debugging: drop chunks (halving sizes down to single operations)
+    while the same clause still fails."""
     ops = list(ops)
-    changed = True
-    while changed:
-        changed = False
-        for i in range(len(ops)):
-            cand = ops[:i] + ops[i + 1:]
-            if any(c == clause for c, _ in oracle(cap, cand)):
-                ops = cand
-                changed = True
-                break
+
+    def bad(c):
+        return any(x == clause for x, _ in oracle(cap, c))
+    size = max(1, len(ops) // 2)
+    budget = 600
+    while size >= 1 and budget > 0:
+        i, changed = 0, False
+        while i < len(ops) and budget > 0:
+            cand = ops[:i] + ops[i + size:]
+            budget -= 1
+            if bad(cand):
+                ops, changed = cand, True
+            else:
+                i += size
+        if not changed or size > 1:
+            size = size // 2 if size > 1 else (1 if changed else 0)
     return ops
 
 
@@ -245,7 +254,7 @@ def report_oracle(ctx, cap, ops, extra=None):
         if done.get(clause, 0) >= (1 if clause == EDGE_SIG else 3):
             continue
         done[clause] = done.get(clause, 0) + 1
-        small = shrink(cap, ops, clause) if len(ops) <= 40 else list(ops)
+        small = shrink(cap, ops, clause)
         text2 = [t for c, t in oracle(cap, small) if c == clause]
         if clause == EDGE_SIG:
             sig = EDGE_SIG
@@ -262,23 +271,27 @@ def report_oracle(ctx, cap, ops, extra=None):
 # ---------------------------------------------------------------- case streams
 
 def exhaustive_cases(ctx):
-    """All histories over tags {0,1}, tokens 0..3, capacities 1..3."""
+    """All histories over tags {0,1}, tokens 0..3, capacities 1..3 (generator)."""
     base = [('a', 0), ('a', 1)] + [('r', t, k) for t in (0, 1) for k in range(4)]
     withb = base + [('b', 0), ('b', 1)]
     nmax = 6 if ctx.thorough() else 5
-    cases = []
     for cap in (1, 2, 3):
         for n in range(0, nmax + 1):
             # blocking acquires double the alphabet's acquire part: enumerated one length shorter
             alpha = withb if n < nmax else base
             for seq in itertools.product(alpha, repeat=n):
-                cases.append((cap, seq))
-    return cases
+                yield (cap, seq)
 
 
-def spec_sim():
-    """Specification-level bookkeeping used only to *generate* histories."""
-    return {'next': {}, 'released': set()}
+def chunks(it, n):
+    buf = []
+    for x in it:
+        buf.append(x)
+        if len(buf) == n:
+            yield buf
+            buf = []
+    if buf:
+        yield buf
 
 
 def random_valid(ctx, rng, maxlen):
@@ -464,7 +477,7 @@ THREAD_SCENARIOS = [
 ]
 
 
-def run_thread_scenario(ctx, name, cap, script):
+def run_thread_scenario(ctx, name, cap, script, use_model=True):
     """Drive the real class with real threads; build the SemaConc schedule the
     observation corresponds to; compare.  Returns failure text or None."""
     import time
@@ -526,6 +539,11 @@ def run_thread_scenario(ctx, name, cap, script):
     still = sorted(asleep())
     line = ' '.join(['C', hx(cap)] + labels)
     got = [' '.join(obs), hx(sem.current_count()), ','.join(hx(t) for t in still), '', 'wf=1']
+    if not use_model:       # oracle only: waiting at zero, exactly-one wake-up, no lost wake-up were checked above
+        ctx.count('sema-threads', 1, nontrivial_key=line, scenario=name)
+        if still or sem.current_count() != cap:
+            return f'{name}: at the end threads {still} are blocked and current_count()={sem.current_count()} (capacity {cap})'
+        return None
     model_raw = common.run_model('sema', [line])[0]
     model = [f.strip() for f in model_raw.split('|')]
     if len(model) == 5:
@@ -645,7 +663,7 @@ def run_e2e(sc, sizes=(0, 3, 9, 14)):
     return result, None
 
 
-STUCK_S = 20
+STUCK_S = 15
 
 
 def e2e_child():
@@ -655,11 +673,17 @@ def e2e_child():
     import json
     import sys
     common.setup_repo_path()
+    stuck = 0
     for sc in json.load(sys.stdin):
+        if stuck >= 2:      # each stuck run costs STUCK_S and leaves blocked threads behind
+            print(json.dumps({'sc': sc, 'err': None, 'skipped': True, 'n': None, 'sems': None}), flush=True)
+            continue
         try:
             res, err = run_e2e(sc)
         except BaseException as e:   # noqa
             res, err = None, f'manager run crashed: {e!r}'
+        if err:
+            stuck += 1
         print(json.dumps({'sc': sc, 'err': err, 'n': res['n'] if res else None,
                           'sems': [[n, repr(v), repr(w)] for n, v, w in res['sems']] if res else None}), flush=True)
     sys.stdout.flush()
@@ -692,6 +716,8 @@ def run_e2e_isolated(scs):
         j = answers.get(json.dumps(sc, sort_keys=True))
         if j is None:
             out.append((sc, None, f'end-to-end child gave no answer for {sc}: {errtxt}'))
+        elif j.get('skipped'):
+            continue
         elif j['err']:
             out.append((sc, None, j['err']))
         else:
@@ -786,10 +812,20 @@ def run(ctx):
         # ---- A. corpus, exhaustive, random, malformed
         corp = corpus_cases() + BUILTIN_CORPUS
         mism += common.differential(ctx, 'sema', corp, line_S, run_impl_S, key=nontrivial_key, hist=hist_S('corpus'))
-        ex = exhaustive_cases(ctx)
-        mism += common.differential(ctx, 'sema', ex, line_S, run_impl_S, key=nontrivial_key, hist=hist_S('exhaustive'))
+        n_ex = n_or = 0
+        step = 2 if ctx.thorough() else 3
+        for ex in chunks(exhaustive_cases(ctx), 200000):
+            mism += common.differential(ctx, 'sema', ex, line_S, run_impl_S, key=nontrivial_key,
+                                        hist=hist_S('exhaustive'))[:40]
+            # the oracle on the same histories (it may catch what the model agrees with)
+            for j, (cap, ops) in enumerate(ex):
+                if len(ops) <= 4 or (n_ex + j) % step == 0:
+                    n_or += 1
+                    if oracle(cap, ops):
+                        report_oracle(ctx, cap, ops)
+            n_ex += len(ex)
         ctx.cov['exhaustive_part'] = ('stream=exhaustive enumerates its bounded space completely '
-                                      f'({len(ex)} histories); the other streams are samples')
+                                      f'({n_ex} histories); the other streams are samples')
         valid, malformed = streams(ctx)
         mism += common.differential(ctx, 'sema', valid, line_S, run_impl_S, key=nontrivial_key, hist=hist_S('valid'))
         mism += common.differential(ctx, 'sema', malformed, line_S, run_impl_S, key=nontrivial_key,
@@ -817,12 +853,9 @@ def run(ctx):
                 ctx.report(f'task:{c[0]}:{"".join(c[1])}', r, {'kind': 'history', 'component': 'TaskSemaphore',
                                                              'case': {'kind': 'T', 'cap': c[0], 'ops': list(c[1])}})
         # ---- C. the oracle on the generated histories (it may catch what the model agrees with)
-        step = 1 if ctx.thorough() else 3
-        pool = corp + [c for j, c in enumerate(ex) if len(c[1]) <= 4 or j % step == 0] + valid[::2] + malformed[::2]
-        n_or = 0
-        for cap, ops in pool:
+        for cap, ops in corp + valid[::2] + malformed[::2]:
             n_or += 1
-            if oracle(cap, ops, second_pass=(len(ops) <= 8 or n_or % 5 == 0)):
+            if oracle(cap, ops, second_pass=(n_or % 3 == 0)):
                 report_oracle(ctx, cap, ops)
         ctx.cov['oracle_evaluations'] = n_or
         # ---- D. real threads against SemaConc
@@ -870,6 +903,19 @@ def search_after_break(ctx):
                 if r:
                     ctx.report(f'task:{cap}:{"".join(seq)}', r, {'kind': 'history', 'component': 'TaskSemaphore',
                                                                 'case': {'kind': 'T', 'cap': cap, 'ops': list(seq)}})
+    for name, cap, script in THREAD_SCENARIOS:
+        r = run_thread_scenario(ctx, name, cap, script, use_model=False)
+        if r:
+            ctx.report(f'threads:{name}', r, {'kind': 'schedule', 'component': 'SlidingWindowSemaphore+threads',
+                                              'case': {'kind': 'threads', 'name': name}, 'broken': ctx.broken.what})
+    for sc, res, err in run_e2e_isolated(E2E_SCENARIOS[::3]):
+        off = [] if err else [(n_, v, w) for (n_, v, w) in res['sems'] if v != w]
+        if err or off:
+            nm = f"{sc['executor']}/{sc['transfer']}/{sc['disturb'] or 'clean'}"
+            ctx.report(f'e2e:{nm}:' + ('stuck' if err else ','.join(x for x, _, _ in off)), err or
+                       f'after shutdown semaphores not back at their configured value: {off}',
+                       {'kind': 'schedule', 'component': 'TransferManager', 'case': dict(sc, kind='e2e'),
+                        'broken': ctx.broken.what})
     ctx.count('sema-search', n, nontrivial_key=None)
     ctx.sample({'component': 'sema-search', 'note': 'oracle-only search after a broken build', 'histories': n})
     if len(ctx.violations) == before:
@@ -893,11 +939,10 @@ def replay(ctx, data):
         print('oracle:', r)
         return r is not None
     if kind == 'threads':
-        if not common.proofs(ctx, 'C12', EXTRACT, COMPONENTS):
-            return True
+        have_model = common.proofs(ctx, 'C12', EXTRACT, COMPONENTS)
         for name, cap, script in THREAD_SCENARIOS:
             if name == case['name']:
-                r = run_thread_scenario(ctx, name, cap, script)
+                r = run_thread_scenario(ctx, name, cap, script, use_model=have_model)
                 print('threads:', r)
                 return r is not None
         return True
